@@ -218,9 +218,26 @@ static char *quote_string(char *str) {
   return buf;
 }
 
+// Tokenize a text made up by the preprocessor (the value of a built-in
+// macro, a stringized argument or a pasted token). Such a token has no
+// place of its own in a source file, so it takes the position of `tmpl`
+// for diagnostics and debug line records.
+static Token *tokenize_at(char *buf, Token *tmpl) {
+  File *file = new_file(tmpl->file->name, tmpl->file->file_no, buf);
+  file->display_name = tmpl->file->display_name;
+  file->line_delta = tmpl->file->line_delta;
+
+  Token *tok = tokenize(file);
+  for (Token *t = tok; t; t = t->next) {
+    t->line_no = tmpl->line_no;
+    t->line_delta = tmpl->line_delta;
+    t->filename = tmpl->filename;
+  }
+  return tok;
+}
+
 static Token *new_str_token(char *str, Token *tmpl) {
-  char *buf = quote_string(str);
-  return tokenize(new_file(tmpl->file->name, tmpl->file->file_no, buf));
+  return tokenize_at(quote_string(str), tmpl);
 }
 
 // Copy all tokens until the next newline, terminate them with
@@ -239,8 +256,7 @@ static Token *copy_line(Token **rest, Token *tok) {
 }
 
 static Token *new_num_token(int val, Token *tmpl) {
-  char *buf = format("%d\n", val);
-  return tokenize(new_file(tmpl->file->name, tmpl->file->file_no, buf));
+  return tokenize_at(format("%d\n", val), tmpl);
 }
 
 static Token *read_const_expr(Token **rest, Token *tok) {
@@ -501,7 +517,7 @@ static Token *paste(Token *lhs, Token *rhs) {
   char *buf = format("%.*s%.*s", lhs->len, lhs->loc, rhs->len, rhs->loc);
 
   // Tokenize the resulting string.
-  Token *tok = tokenize(new_file(lhs->file->name, lhs->file->file_no, buf));
+  Token *tok = tokenize_at(buf, lhs);
   if (tok->next->kind != TK_EOF)
     error_tok(lhs, "pasting forms '%s', an invalid token", buf);
   return tok;
